@@ -249,6 +249,14 @@ type decoder struct {
 	rd io.Reader
 }
 
+// short reports whether fewer than n bytes are left when decoding from
+// memory. Length fields come from untrusted input: they are checked against
+// what is actually there before a buffer of that size is allocated.
+func (d *decoder) short(n int64) bool {
+	br, ok := d.rd.(*bytes.Reader)
+	return ok && n > int64(br.Len())
+}
+
 // read9p extracts values from rd and unmarshals them to the targets of vs.
 func (d *decoder) decode(vs ...interface{}) error {
 	for _, v := range vs {
@@ -264,6 +272,10 @@ func (d *decoder) decode(vs ...interface{}) error {
 				return err
 			}
 
+			if d.short(int64(ll)) {
+				return io.ErrUnexpectedEOF
+			}
+
 			if ll > 0 {
 				*v = make([]byte, int(ll))
 			}
@@ -277,6 +289,10 @@ func (d *decoder) decode(vs ...interface{}) error {
 			// implement string[s] encoding
 			if err := d.decode(&ll); err != nil {
 				return err
+			}
+
+			if d.short(int64(ll)) {
+				return io.ErrUnexpectedEOF
 			}
 
 			b := make([]byte, ll)
@@ -296,6 +312,11 @@ func (d *decoder) decode(vs ...interface{}) error {
 
 			if err := d.decode(&ll); err != nil {
 				return err
+			}
+
+			// every string takes at least its two-byte length on the wire
+			if d.short(2 * int64(ll)) {
+				return io.ErrUnexpectedEOF
 			}
 
 			elements := make([]interface{}, int(ll))
@@ -325,6 +346,11 @@ func (d *decoder) decode(vs ...interface{}) error {
 				return err
 			}
 
+			// every qid takes 13 bytes on the wire
+			if d.short(13 * int64(ll)) {
+				return io.ErrUnexpectedEOF
+			}
+
 			elements := make([]interface{}, int(ll))
 			*v = make([]Qid, int(ll))
 			for i := range elements {
@@ -339,6 +365,10 @@ func (d *decoder) decode(vs ...interface{}) error {
 
 			if err := d.decode(&ll); err != nil {
 				return err
+			}
+
+			if d.short(int64(ll)) {
+				return io.ErrUnexpectedEOF
 			}
 
 			b := make([]byte, ll)
